@@ -114,6 +114,16 @@ def config_cases(tier):
             for it in ('euler', 'rk4'):
                 out.append({'system': system, 'temp': temp, 'it': it, 'tf': 2.0, 'constraints': {'dtScale': 0.05},
                             'max_steps': 20000, 'record': False})
+    # (2c) documented options outside the main products: second impingement-rate function, aspect ratio derived from the elastic
+    #      strain energy (calculateAspectRatio) on a grid that is extended / re-meshed during the run
+    strain = {'P1': {'eig': [0.022, 0.022, 0.003], 'calc': True}, 'P2': {'eig': [0.010, 0.010, 0.002], 'calc': True}}
+    for it in ('euler', 'rk4'):
+        for temp in ('iso', 'hrh'):
+            for nph in (1, 2):
+                out.append({'system': 'bin', 'beta': 2, 'temp': temp, 'it': it, 'nphases': nph, 'tf': 20.0,
+                            'constraints': {'dtScale': 0.05}, 'max_steps': 8000})
+                out.append({'system': 'bin', 'strain': strain, 'temp': temp, 'it': it, 'nphases': nph, 'tf': 20.0,
+                            'constraints': {'dtScale': 0.05}, 'max_steps': 8000, 'pbm': pp.PBM_B, 'preload': nph == 1})
     # (3) recording with a fixed grid, all site types, compositions at the edge
     for system in ('bin', 'tern'):
         for site in ['bulk', 'dislocations', 'grain boundaries', 'grain edges', 'grain corners']:
@@ -134,7 +144,7 @@ def fault_cases(tier):
     K2 = 0 if quick else 16
     for system in ('bin', 'tern'):
         for it in ('euler', 'rk4'):
-            for temp in (['iso', 'hrh'] if quick else ['iso', 'hrh', 'heat']):
+            for temp in (['iso', 'hrh', 'iso_hot'] if quick else ['iso', 'hrh', 'heat', 'iso_hot']):   # iso_hot: undersaturated
                 for pre in (False, True):
                     base = {'system': system, 'it': it, 'temp': temp, 'tf': 6.0, 'constraints': {'dtScale': 0.05},
                             'preload': pre, 'max_steps': 3000}
